@@ -325,7 +325,7 @@ def run(P: Program, rep: Report):
     # ------------------------------------------------------------ R1 option liveness
     rep.rule("C06.R1", "every BibtexFormat option is read by the writer through the format argument (a property that no "
                        "serialiser reads cannot influence the output)")
-    props = [n for n, m in fmtcls.methods.items() if m.is_property]
+    props = [n for n, m in fmtcls.methods.items() if m.is_property or (getattr(m, "custom_decorators", None) and n in OPTIONS)]
     rep.require_count("C06.R1", "BibtexFormat options", len(props), 5)
     reads = {p: [] for p in props}
     for f in P.all_funcs:
